@@ -57,7 +57,7 @@ def wrap_stage(ck, checks, prop):
     ck.ev.cov["long_histories"] = len(cases)
 
 
-def sweeps_stage(ck, checks, tag, algos):
+def sweeps_stage(ck, checks, tag, algos, **kw):
     """L2 models of the sweeps that consume a traversal order (Sweeps.tla) + B1: the graphs the model ranges
     over are written out by TLC, installed in real flow graphs through a user-defined router (the library's
     extension point) and run through the real order algorithms, accumulate, basins and kernels."""
@@ -88,7 +88,7 @@ def sweeps_stage(ck, checks, tag, algos):
         return
     graphs = [json.loads(l) for l in open(out)]
     ck.ev.cov["graphs_enumerated_by_tlc"] = len(graphs)
-    cases = list(cf.inject_cases(graphs, ck.seed + 700, tag, big=40 if q else 1500))
+    cases = list(cf.inject_cases(graphs, ck.seed + 700, tag, big=40 if q else 1500, **kw))
     ck.traces(cases, checks, tag=tag, nontrivial=lambda c: True, sample_events=("Update", "Accumulate", "Basins", "Kernel"))
     ck.ev.cov["installed_graphs"] = len(graphs) + (40 if q else 1500)
 
@@ -313,6 +313,11 @@ def plan_C10(ck):
               nontrivial=cf.nontrivial_world, timeout_ms=30000)
     ck.traces(cf.parallel_cases(ck.seed + 110, 30 if q else 400, 5, "C10big", big=True), ["C10"], tag="c10big",
               nontrivial=cf.nontrivial_world, timeout_ms=60000)
+    if q and ck.violations:
+        return
+    # kernels on graphs no grid router produces (every forest / DAG of 4 nodes enumerated by TLC, random 9-node
+    # DAGs), installed by a user-defined router; 1..7 kernel threads, minimum block sizes 0..5
+    sweeps_stage(ck, ["C10"], "c10inj", (), kthr=(1, 2, 3, 5, 7), kmin=(0, 1, 2, 5))
     if q and ck.violations:
         return
     # the same kind of cases with every interleaving decision taken by the harness' scheduler
